@@ -20,10 +20,14 @@ pub struct C13Case {
     /// 0 = first in the pipeline, 1 = middle, 2 = last
     pub pos: u8,
     pub workers: u8,
+    /// header fields of the oversized frame: 0 = as the opcode needs, 1 = key_length 251, 2 = key_length 65535,
+    /// 3 = extras_length 21, 4 = extras_length 255 (the body is oversized in every case: 'too large' is still due)
+    #[serde(default)]
+    pub hdr: u8,
 }
 
 pub const SPLITS: usize = 11;
-pub const RULE: &str = "enumeration: item size limits {1 KiB, 2 KiB, 4 KiB-1, 64 KiB, 1 MiB, 4 MiB} x body length {limit-1, limit, limit+1, 2*limit, 16*limit (<= 8 MiB), 2^32-1 announced with early close} x every opcode in the protocol table x position in the pipeline {first, middle, last} x split of the oversized frame between the first enforced chunk and the rest {header only, +1 body byte, 1/4, 1/2-1, 1/2, 1/2+1, 3/4, body-1, whole body, body + part of the next request, everything in one chunk}, each on a fresh loopback connection to an in-process server (quick tier: a fixed sub-grid; thorough: full grid plus proptest-random points). Oracle: the oversized request is answered exactly once with status 0x03 and its opaque; the requests before and after it are answered exactly as if it had never been sent (get of a key set before it hits, a counter increment after it returns its initial value, the sentinel noop is answered); the key it names is absent from the store (in-process side channel); a body of at most the limit is never answered 0x03 and a limit-sized set is stored. non-trivial = an oversized frame followed by at least one request with at least one body byte in the first chunk";
+pub const RULE: &str = "enumeration: item size limits {1 KiB, 2 KiB, 4 KiB-1, 64 KiB, 1 MiB, 4 MiB} x body length {limit-1, limit, limit+1, 2*limit, 16*limit (<= 8 MiB), 2^32-1 announced with early close} x every opcode in the protocol table (also with key_length 251/65535 or extras_length 21/255 in the oversized header) x position in the pipeline {first, middle, last} x split of the oversized frame between the first enforced chunk and the rest {header only, +1 body byte, 1/4, 1/2-1, 1/2, 1/2+1, 3/4, body-1, whole body, body + part of the next request, everything in one chunk}, each on a fresh loopback connection to an in-process server (quick tier: a fixed sub-grid; thorough: full grid plus proptest-random points). Oracle: the oversized request is answered exactly once with status 0x03 and its opaque; the requests before and after it are answered exactly as if it had never been sent (get of a key set before it hits, a counter increment after it returns its initial value, the sentinel noop is answered); the key it names is absent from the store (in-process side channel); a body of at most the limit is never answered 0x03 and a limit-sized set is stored. non-trivial = an oversized frame followed by at least one request with at least one body byte in the first chunk";
 pub const ASSUME: &[&str] = &[
     "the server reads into a 4 KiB buffer, so the part of a large body that is buffered when its header is parsed is bounded by what one read returns; the split table is applied to the first enforced chunk",
     "bodies above 8 MiB are only announced, not sent in full",
@@ -73,7 +77,19 @@ pub fn run_case(c: &C13Case) -> CaseReport {
         wire::store(wire::SET, b"pre", b"1", 3, 0, 1, 0).write_to(&mut stream);
     }
     let fstart = stream.len();
-    big_frame(c.op, b, present, 2).write_to(&mut stream);
+    {
+        let mut f = big_frame(c.op, b, present, 2);
+        if oversized {
+            match c.hdr {
+                1 => f.key_len = 251,
+                2 => f.key_len = 65535,
+                3 => f.extras_len = 21,
+                4 => f.extras_len = 255,
+                _ => {}
+            }
+        }
+        f.write_to(&mut stream);
+    }
     let fend = stream.len();
     if c.pos <= 1 && !early_close {
         wire::get(wire::GET, b"pre", 3).write_to(&mut stream);
@@ -251,12 +267,17 @@ fn grid(ctx: &Ctx) -> Vec<C13Case> {
                         if *l >= (1 << 20) && !ops_quick().contains(op) {
                             continue;
                         }
-                        v.push(C13Case { limit: *l, op: *op, size_sel: *s, split, pos, workers: if (li + split as usize) % 2 == 0 { 0 } else { 2 } });
+                        v.push(C13Case { limit: *l, op: *op, size_sel: *s, split, pos, workers: if (li + split as usize) % 2 == 0 { 0 } else { 2 }, hdr: 0 });
+                        // oversized frames whose key/extras length fields are out of range as well
+                        if *s >= 2 && (split == 0 || split == 8 || split == 10) && pos == 1 && *l <= 65536 {
+                            let hdr = 1 + ((*op as usize + split as usize + *s as usize) % 4) as u8;
+                            v.push(C13Case { limit: *l, op: *op, size_sel: *s, split, pos, workers: 0, hdr });
+                        }
                     }
                 }
             }
         }
-        v.push(C13Case { limit: *l, op: wire::SET, size_sel: 5, split: 8, pos: 2, workers: 0 });
+        v.push(C13Case { limit: *l, op: wire::SET, size_sel: 5, split: 8, pos: 2, workers: 0, hdr: 0 });
     }
     v
 }
@@ -270,7 +291,7 @@ pub fn strategy() -> BoxedStrategy<C13Case> {
         0u8..3,
         prop_oneof![Just(0u8), Just(2u8)],
     )
-        .prop_map(|(limit, op, size_sel, split, pos, workers)| C13Case { limit, op, size_sel, split, pos, workers })
+        .prop_map(|(limit, op, size_sel, split, pos, workers)| C13Case { limit, op, size_sel, split, pos, workers, hdr: (op % 5) })
         .boxed()
 }
 
